@@ -544,7 +544,7 @@ def _hard_inverse(draw):
     return {"fn": "vincinv", "a": {"lat1": lat1, "lon1": lon1, "lat2": lat2, "lon2": lon2, "ell": draw(_ell)}}
 
 
-def call_strategy(families=False):
+def call_strategy(families=False, raw_pool=False):
     shipped7 = st.deferred(lambda: st.sampled_from(TR.shipped_names())).map(lambda n: {"name": n})
     shipped_sd = st.deferred(lambda: st.sampled_from(_sd_names())).map(lambda n: {"name": n})
     dated = st.deferred(lambda: st.sampled_from(TR.shipped_dated_names())).map(lambda n: {"name": n})
@@ -683,10 +683,46 @@ def call_strategy(families=False):
                 call = {"fn": call["fn"], "a": dict(call["a"], zd=True)}
             return call
         return st.tuples(entry, st.sampled_from(["c", "c", "c", "view", "f"]), st.sampled_from([False] * 7 + [True])).map(inject)
+    if raw_pool:
+        return pool
     pool = [with_rep(e) for e in pool]
     if families:
         return st.one_of(*[_family(e) for e in pool])
     return st.one_of(*pool)
+
+
+ANGLE_FNS = ["dec>dec2hp", "dec>dec2gon", "dec>dec2dms", "dec>dec2ddm", "dec>dec2hpa", "hp>hp2dec", "hp>hp2rad", "hp>hp2gon", "hp>hp2dms", "hp>hp2ddm",
+             "gon>gon2dec", "gon>gon2hp", "gon>gon2rad", "dec>dd2sec", "dec>dec2gona", "hp>hp2deca", "hp>hp2gona", "gon>gon2deca", "gon>gon2hpa",
+             "gon>gon2dms", "gon>gon2ddm"]
+ANGLE_OPS = ["add", "sub", "neg", "abs", "mul", "div", "lt", "eq", "hp", "dms", "round0", "round2", "round5", "mod", "rmul", "ne", "gt", "str", "absneg",
+             "self", "to:dec", "to:rad", "to:hp", "to:gon", "to:deca", "to:hpa", "to:gona", "to:dms", "to:ddm"]
+CLASSES = ["dec", "hp", "gon", "dms", "ddm"]
+
+
+def function_axis():
+    """[(label, strategy of calls)]: the catalogue cut along its *function* axis - every module-level angle function, every
+    operator / method of every angle class, every coordinate-object operation, and every other entry of the pool - so that an
+    enumeration can visit each library function at least once per run, whatever the random draws of the other sub-checks hit."""
+    x = st.one_of(S.floats(-360, 360), st.sampled_from([0.0, -0.5, 59.0 / 60.0, 179.99999999999, -12.575]))
+    out = [("angle_fn:" + f, _fd("angle_fn", x=x, f=st.just(f))) for f in ANGLE_FNS]
+    out += [("angle_fn_v:%s:%s" % (f, lay), _fd("angle_fn_v", xs=st.lists(S.floats(-360, 360), min_size=1, max_size=6), f=st.just(f), layout=st.just(lay)))
+            for f in ("hp2dec_v", "dec2hp_v") for lay in ("c", "strided", "int")]
+    for c in CLASSES:
+        for op in ANGLE_OPS:
+            out.append(("angle_op:%s:%s" % (c, op), _fd("angle_op", c1=st.just(c), c2=st.sampled_from(CLASSES), x=S.floats(-180, 180), y=S.floats(-180, 180),
+                                                         op=st.just(op), k=st.sampled_from([2, 0.5, -3, 1.5, 360]))))
+    for op in ["dec", "hp", "str", "add", "eq", "lt", "llh2xyz", "rad", "vincdir"]:
+        out.append(("angle_rounded:" + op, _fd("angle_rounded", cls=st.sampled_from(["dms", "ddm"]), d=st.integers(0, 80), m=st.sampled_from([0, 29, 58, 59]),
+                                               pos=st.booleans(), op=st.just(op))))
+    for op in ["cart", "tm", "notation", "roundtrip", "round2", "eq", "repr", "tm_round"]:
+        out.append(("coord_geo:" + op, _fd("coord_geo", lat=S.floats(-60, -5), lon=S.floats(112, 154), h=st.one_of(st.none(), S.floats(-100, 3000)),
+                                            H=st.one_of(st.none(), S.floats(-100, 3000)), notation=st.sampled_from(["float", "dec", "hp", "gon", "dms", "ddm"]),
+                                            op=st.just(op), to=st.sampled_from(["float", "dec", "hp", "gon", "dms", "ddm"]),
+                                            ell=st.sampled_from(["grs80", "ans"]), prj=st.just("utm"))))
+    seen = {}
+    for e in call_strategy(raw_pool=True):
+        out.append((None, e))          # labelled by the function name of the calls it produces (see C09.enumerate_functions)
+    return out
 
 
 TIME_OR_COV = ("conform14", "atrf", "trans_add", "mga")
